@@ -768,7 +768,7 @@ def deepening_progress(chk, prog):
                     chk.violation("C16.o", where, cons, "this store may thicken the first compartment beyond the top-soil depth (a profile of one compartment, e.g. "
                                   "Soil('Loam', dz=[1.2]) under Maize): no compartment ends within z_top and root_zone_water's `assert comp_sto > 0` fails", loc=fi.loc(pn.ast))
     chk.floor("C16.j", n, 1, "loops on the soil depth below _initialize")
-    chk.floor("C16.o", n_o, 2, "thickness stores of the deepening loop")
+    chk.floor("C16.o", n_o, 1, "thickness stores of the deepening loop")
 
 
 def run(chk, prog, tier):
